@@ -15,6 +15,20 @@ use std::sync::Arc;
 pub struct Case {
     pub spec: Spec,
     pub confs: Vec<(Kind, f64)>,
+    /// an extreme but strictly positive value injected at a position: (position, which)
+    #[serde(default)]
+    pub inject: Option<(usize, u8)>,
+}
+
+/// strictly positive extremes: smallest subnormal, a subnormal, MIN_POSITIVE, tiny normal, huge
+fn extreme<F: Fl>(which: u8) -> F {
+    match which {
+        0 => F::min_positive_value() / F::of(if F::IS32 { 8388608.0 } else { 4503599627370496.0 }),
+        1 => F::min_positive_value() / F::of(16.0),
+        2 => F::min_positive_value(),
+        3 => F::min_positive_value() * F::of(1024.0),
+        _ => F::max_value() / F::of(1024.0),
+    }
 }
 
 fn ulps<F: Fl>(a: f64, b: f64) -> u64 {
@@ -32,9 +46,15 @@ fn ulps<F: Fl>(a: f64, b: f64) -> u64 {
 }
 
 fn judge_relations<F: Fl>(c: &Case, l: &mut Local) {
-    let x64 = sample(&c.spec);
-    let x: Vec<F> = conv(&x64);
+    let mut x64 = sample(&c.spec);
+    let mut x: Vec<F> = conv(&x64);
     let n = x.len();
+    if let Some((pos, which)) = c.inject {
+        let v: F = extreme::<F>(which);
+        x[pos % n] = v;
+        x64[pos % n] = v.f();
+        l.count("strictly positive extreme injected (subnormal / MIN_POSITIVE / tiny / huge)");
+    }
     let case = || serde_json::to_value(c).unwrap();
     // monitor-transformed data, in F
     let logs: Vec<F> = x.iter().map(|v| v.ln()).collect();
@@ -46,6 +66,11 @@ fn judge_relations<F: Fl>(c: &Case, l: &mut Local) {
             return;
         }
     };
+    // 1/x overflows for subnormal x: a non-finite reciprocal-space state is C11's regime
+    let rec_finite = recs.iter().all(|v| v.is_finite() && (*v * *v).is_finite()) && recs.iter().fold(F::zero(), |a, v| a + *v * *v).is_finite();
+    if !rec_finite {
+        l.count("harmonic relations skipped: a reciprocal overflows (left to C11)");
+    }
     let h = match Harmonic::<F>::from_iter(&x) {
         Ok(h) => h,
         Err(e) => {
@@ -64,7 +89,7 @@ fn judge_relations<F: Fl>(c: &Case, l: &mut Local) {
         h2.append(*v).unwrap();
     }
     l.eval();
-    if g2 != g || h2 != h || g.sample_count() != n || h.sample_count() != n {
+    if g2 != g || (rec_finite && h2 != h) || g.sample_count() != n || h.sample_count() != n {
         l.violation(format!("Geometric/Harmonic|{}|append-vs-from_iter", F::TY), "append*n and from_iter build different states".to_string(), case(), json!({"geometric": [format!("{:?}", g), format!("{:?}", g2)], "harmonic": [format!("{:?}", h), format!("{:?}", h2)]}));
     }
     // sample means: G = exp(mean ln x), H = 1/mean(1/x); H <= G <= A
@@ -74,6 +99,7 @@ fn judge_relations<F: Fl>(c: &Case, l: &mut Local) {
     l.eval();
     let (ug, uh) = (ulps::<F>(gm, want_g), ulps::<F>(hm, want_h));
     l.max("sample_mean_ulps_off_transform", ug.max(uh) as f64);
+    let uh = if rec_finite { uh } else { 0 };
     if ug > 4 || uh > 4 {
         l.violation(format!("sample_mean|{}|not-back-transform|{}", F::TY, if ug > 4 { "Geometric" } else { "Harmonic" }), "sample_mean is not exp(mean of logs) / 1/(mean of reciprocals)".to_string(), case(), json!({"geometric": gm, "exp(mean ln x)": want_g, "harmonic": hm, "1/mean(1/x)": want_h}));
     }
@@ -87,18 +113,18 @@ fn judge_relations<F: Fl>(c: &Case, l: &mut Local) {
         if !(err <= abs_tol) && gm.is_finite() && gm > 0.0 {
             l.violation(format!("Geometric::sample_mean|{}|off-exact-log-mean", F::TY), "ln(sample_mean) differs from the exact mean of the logarithms beyond rounding".to_string(), case(), json!({"ln(sample_mean)": gm.ln(), "exact_mean_of_logs": st.mean_f, "tolerance": abs_tol}));
         }
-        let tr: Vec<f64> = recs.iter().map(|v| v.f()).collect();
+        let tr: Vec<f64> = if rec_finite { recs.iter().map(|v| v.f()).collect() } else { vec![1.0, 2.0] };
         let sr = stats_f64(&tr);
         let rel_tol = 9.0 * F::U * sr.a_f / (n as f64 * sr.mean_f.abs()) + 8.0 * F::U;
         let errh = (1.0 / hm - sr.mean_f).abs() / sr.mean_f.abs();
         l.max("harmonic_recmean_err_over_budget", errh / rel_tol);
-        if !(errh <= rel_tol) && hm.is_finite() {
+        if !(errh <= rel_tol) && hm.is_finite() && rec_finite {
             l.violation(format!("Harmonic::sample_mean|{}|off-exact-reciprocal-mean", F::TY), "1/sample_mean differs from the exact mean of the reciprocals beyond rounding".to_string(), case(), json!({"1/sample_mean": 1.0 / hm, "exact_mean_of_reciprocals": sr.mean_f, "rel_tolerance": rel_tol}));
         }
     }
     l.eval();
     let slack = |v: f64| 8.0 * F::U * 2.0 * v.abs() + 9.0 * F::U * v.abs() * (1.0 + x64.iter().fold(0.0f64, |m, t| m.max(t.ln().abs())));
-    if hm > gm + slack(gm) || gm > am + slack(am) {
+    if (rec_finite && hm > gm + slack(gm)) || gm > am + slack(am) {
         l.violation(format!("means|{}|H<=G<=A-violated", F::TY), "harmonic <= geometric <= arithmetic does not hold for the reported sample means".to_string(), case(), json!({"harmonic": hm, "geometric": gm, "arithmetic": am}));
     }
     // standard errors: G * se(ln x), H^2 * se(1/x)
@@ -152,6 +178,9 @@ fn judge_relations<F: Fl>(c: &Case, l: &mut Local) {
             }
         }
         // harmonic: reciprocal-space CI at the flipped kind, ends exchanged
+        if !rec_finite {
+            continue;
+        }
         let ar = call(|| a_rec.ci_mean(conf(kind.flipped(), level))).map(|i| F::obs(&i));
         let hh = call(|| h.ci_mean(cf)).map(|i| F::obs(&i));
         let hh1 = call(|| Harmonic::<F>::ci(cf, &x)).map(|i| F::obs(&i));
@@ -332,7 +361,8 @@ fn make_case(seed: u64, i: u64, levels: &[f64]) -> Case {
         confs.push((kind, *r.pick(levels)));
         confs.push((kind, *r.pick(levels)));
     }
-    Case { spec: Spec { family, n, seed: r.next_u64(), f32, positive: true }, confs }
+    let inject = if i % 12 == 7 { Some((r.below(n as u64) as usize, r.below(5) as u8)) } else { None };
+    Case { spec: Spec { family, n, seed: r.next_u64(), f32, positive: true }, confs, inject }
 }
 
 pub fn run(run: &Arc<Run>) {
@@ -394,7 +424,7 @@ pub fn run(run: &Arc<Run>) {
             }
         }
     });
-    let mut req: Vec<String> = vec!["geometric interval judged".into(), "harmonic interval judged".into(), "sample_sem judged".into(), "harmonic: reciprocal-space interval straddles 0 (proviso; left to C11)".into()];
+    let mut req: Vec<String> = vec!["strictly positive extreme injected (subnormal / MIN_POSITIVE / tiny / huge)".into(), "geometric interval judged".into(), "harmonic interval judged".into(), "sample_sem judged".into(), "harmonic: reciprocal-space interval straddles 0 (proviso; left to C11)".into()];
     for s in ["Geometric", "Harmonic"] {
         for c in ["0", "-0", "negative", "-min_positive", "-inf"] {
             req.push(format!("rejection:{}:{}", s, c));
